@@ -633,26 +633,60 @@ def check_internal_order(ctx, lib):
     gt = [a for c, a in calls.items() if c == "std::cmp::PartialEq::ne" or c == "std::cmp::PartialEq::eq"]
     ok = any(ms(a[0], Call("variable::Variable::get_type", Each(("param", 1)))) and ms(a[1], Call("variable::Variable::get_type", Each(("param", 2)))) for a in gt)
     ctx.check(ok, rule, "type-gate", "values are compared only after their types were found equal", b.span)
-    # PartialOrd delegates to cmp consistently
-    for meth, want in (("lt", "Less"), ("gt", "Greater")):
+    # PartialOrd delegates to cmp consistently: each operator is walked under the three outcomes of self.cmp(other),
+    # whatever its spelling (== Ordering::X, is_lt()/is_le()/.., matches!, match)
+    from ..decision import Undecided, Walker
+    TABLE = {"lt": {"Less"}, "le": {"Less", "Equal"}, "gt": {"Greater"}, "ge": {"Greater", "Equal"}}
+    IS = {"is_lt": {"Less"}, "is_le": {"Less", "Equal"}, "is_gt": {"Greater"}, "is_ge": {"Greater", "Equal"}, "is_eq": {"Equal"}, "is_ne": {"Less", "Greater"}}
+    for meth in ("lt", "gt", "le", "ge"):
         pb = lib.fn(f"<variable::Variable as std::cmp::PartialOrd>::{meth}")
         if pb is None:
-            ctx.missing(rule, meth, f"PartialOrd::{meth} for Variable")
+            if meth in ("lt", "gt"):
+                ctx.missing(rule, meth, f"PartialOrd::{meth} for Variable")
             continue
         po = Origins(pb, lib)
         cc = [t for _, t in pb.calls() if t["callee"] == "std::cmp::Ord::cmp"]
-        ok = len(cc) == 1 and po.of_operand(cc[0]["args"][0]) == {("param", 1)} and po.of_operand(cc[0]["args"][1]) == {("param", 2)}
-        proms = set()
-        for bb, t in pb.calls():
-            if t["callee"] in ("std::cmp::PartialEq::eq",):
-                for a in t["args"]:
-                    for x in po.of_operand(a):
-                        if x[0] == "promoted":
-                            pbody = lib.promoted(pb.deff, x[1])
-                            for _, _, s in pbody.stmts(reachable_only=False):
-                                if s["k"] == "assign" and s["rv"]["k"] == "agg" and s["rv"].get("adt") == "std::cmp::Ordering":
-                                    proms.add(s["rv"]["variant"])
-        ctx.check(ok and proms == {want}, rule, f"partial-ord-{meth}", f"a.{meth}(b) = (a.cmp(b) == {want}) (compares against {sorted(proms)})", pb.span)
+        ok = len(cc) >= 1 and all(po.of_operand(t["args"][0]) == {("param", 1)} and po.of_operand(t["args"][1]) == {("param", 2)} for t in cc)
+        truth = set()
+        for outcome in ("Less", "Equal", "Greater"):
+            def is_cmp(t):
+                return t[0] == "call" and t[1] == "std::cmp::Ord::cmp"
+
+            def atom(t, outcome=outcome):
+                if t[0] == "discr" and is_cmp(t[1]):
+                    return outcome
+                if t[0] == "promoted":
+                    pbody = lib.promoted(pb.deff, t[1])
+                    if pbody is not None:
+                        for _, _, st in pbody.stmts(reachable_only=False):
+                            if st["k"] == "assign" and st["rv"]["k"] == "agg" and st["rv"].get("adt") == "std::cmp::Ordering":
+                                return st["rv"]["variant"]
+                if t[0] == "agg" and t[1].startswith("std::cmp::Ordering::"):
+                    return t[1].split("::")[-1]
+                return None
+
+            def call(t, argvals, outcome=outcome):
+                if is_cmp(t):
+                    return outcome
+                nm = t[1].split("::")[-1]
+                if "Ordering" in t[1] and nm in IS and argvals and isinstance(argvals[0], str):
+                    return int(argvals[0] in IS[nm])
+                if t[1] in ("std::cmp::PartialEq::eq", "std::cmp::PartialEq::ne") and len(argvals) == 2 and all(isinstance(x, str) for x in argvals):
+                    return int((argvals[0] == argvals[1]) == t[1].endswith("::eq"))
+                return None
+
+            w = Walker(pb, po, atom=atom, call=call)
+            try:
+                vals = set()
+                for path, leaf in w.walk():
+                    vals.add(w.eval_terms(w.result_on_path(path)))
+                if vals == {1}:
+                    truth.add(outcome)
+                elif vals != {0}:
+                    ok = False
+            except Undecided:
+                ok = False
+        ctx.check(ok and truth == TABLE[meth], rule, f"partial-ord-{meth}", f"a.{meth}(b) is true exactly when a.cmp(b) is in {sorted(TABLE[meth])} (found {sorted(truth)})", pb.span)
 
 
 def check_expref_application(ctx, lib, by_name, sigs):
